@@ -70,6 +70,8 @@ func (c *ctx) runConn(sock string, cs *c05case) {
 	}
 	defer conn.Close()
 	uc := conn.(*net.UnixConn)
+	// (a server that never reads this connection must not block the harness once the socket buffer is full)
+	uc.SetWriteDeadline(time.Now().Add(10*time.Second + cs.delayCb + cs.delayMid))
 	for k, ch := range cs.chunks {
 		if len(ch) == 0 {
 			continue
